@@ -56,9 +56,13 @@ open_("C11", ["C11|recovered-state|*|S/*|*"],
       SP + "same crash-consistency defects under power loss with SyncEnable (index and metadata files are written after the synced commit record)")
 open_("C11", ["C11|recovered-state|*@powerloss|K*/*|in-merge", "C11|recovered-state|*@powerloss|K*/*|in-merge,*", "C11|recovered-state|*@powerloss|K*/*|*,in-merge"],
       "Merge unlinks the merged segment files without ever syncing the directory: after a power loss during Merge an older segment can reappear while a newer one, which held the tombstone of a key (or the SRem of a member), stays removed, so a deleted key comes back (the property counts an unsynced removal as one that may be undone)")
+fixed("C12", "6479459", "a write that failed after some bytes had reached the file left them behind the write offset; when the next committed entry did not fit, the segment was sealed with that debris and the next Open failed with a crc error (also C09)", "C12|open-error-after-fault|crc-error@write .dat|K*/F|fault")
+open_("C12", ["C12|effect-on-later-commit|*|S/*|fault"],
+      SP + "a record write or sync that fails leaves the key position map (BPTreeKeyEntryPosMap) pointing at the entry that was not written; after the next rotation the sparse index of the sealed segment refers to a hole and Get/GetAll/scans panic with a nil entry")
 open_("C12", ["C12|effect-in-process|*|*|fault", "C12|effect-after-reopen|*|S/*|fault"],
       "an I/O error in the middle of Commit (record write, sync, or create/truncate of the next segment during rotation) returns an error but leaves the transaction's earlier entries inserted in the in-memory index (and, after a failed rotation, the active file closed): reads in the running process change although the transaction failed; in sparse mode the partial commit also survives reopen")
-open_("C13", ["C13|call-result|*|KV/*|*", "C13|obs-mismatch|SCard:wrong-value|KV/*|*", "C13|obs-mismatch|SIsMember:wrong-value|KV/*|*", "C13|obs-mismatch|SMembers:extra|KV/*|*", "C13|obs-mismatch|SUnionByOneBucket:extra|KV/*|*"],
+open_("C13", ["C13|call-result|*|KV/*|*", "C13|obs-mismatch|SCard:wrong-value|KV/*|*", "C13|obs-mismatch|SIsMember:wrong-value|KV/*|*", "C13|obs-mismatch|SMembers:extra|KV/*|*", "C13|obs-mismatch|SUnionByOneBucket:extra|KV/*|*",
+              "C13|obs-mismatch|LRange:extra|KV/*|*", "C13|obs-mismatch|LSize:wrong-value|KV/*|*", "C13|obs-mismatch|LPeek:wrong-value|KV/*|*", "C13|obs-mismatch|RPeek:wrong-value|KV/*|*"],
       "calls inside a write transaction read the committed indexes only: Get/scans/LRange/SMembers/ZScore do not see earlier writes of the same transaction, a second pop returns the same element again, LSet/LTrim/LRem/SMove are validated against the state at the start of the transaction (and may become no-ops at commit)")
 open_("C17", ["C17|final-state|Get:wrong-value|K*/F|*", "C17|not-serializable|history:Get|K*/F|*", "C17|data-race|race:*(*DB).Merge*|*|*", "C17|data-race|race:*(*DB).getPendingMergeEntries*|*|*", "C17|data-race|race:*(*DB).reWriteData*|*|*",
                "C17|data-race|race:*(*DB).getRecordFromKey*|*|*", "C17|data-race|race:*(*DB).isFilterEntry*|*|*", "C17|data-race|race:*(*DB).getMaxFileIDAndFileIDs*|*|*"],
